@@ -14,13 +14,27 @@ import (
 // name exactly once, and a distinct value per key lands in its own field (decode of a
 // symbolic document, compared through the json tag binding of the decode stub).
 func HarnessC14L3() {
-	sets := [][]string{
-		{"foo", "Foo", "FOO"},
-		{"a-b", "a_b", "aB"},
-		{"id", "Id", "ID", "i_d"},
-		{"x1", "x_1", "X1"},
+	// families of names that normalise to related identifiers, including names that already
+	// look like the suffixed form the de-duplication produces; the siblings are any K of them
+	fams := [][]string{
+		{"foo", "Foo", "FOO", "Foo_2", "foo_2", "foo2", "_foo", "foo_"},
+		{"a-b", "a_b", "aB", "AB", "a b", "A_B_2", "a.b", "a-b-2"},
+		{"id", "Id", "ID", "i_d", "Id_2", "id2", "ID_3", "_id"},
+		{"x1", "x_1", "X1", "x-1", "X1_2", "X_1_2", "x1_", "1x"},
 	}
-	names := sets[zzvrt.Choice(len(sets))]
+	fam := fams[zzvrt.Choice(len(fams))]
+	fam = fam[:zzvrt.Param("POOL", 6)]
+	var names []string
+	for k := 0; k < len(fam) && len(names) < zzvrt.Param("SIBLINGS", 3); k++ {
+		// every K-subset, in pool order: a name is taken unless too few would remain
+		need := zzvrt.Param("SIBLINGS", 3) - len(names)
+		if len(fam)-k == need || zzvrt.Bool() {
+			names = append(names, fam[k])
+		}
+	}
+	if len(names) < zzvrt.Param("SIBLINGS", 3) {
+		return
+	}
 	props := map[string]*schemas.Type{}
 	for _, n := range names {
 		props[n] = &schemas.Type{Type: schemas.TypeList{"integer"}}
